@@ -216,7 +216,9 @@ def _trim(h: Distogram) -> Distogram:  # pragma: no cover
 
         v1, f1 = h.bins[i]
         v2, f2 = h.bins.pop(i + 1)
-        h.bins[i] = (v1 * f1 + v2 * f2) / (f1 + f2), f1 + f2
+        centre = (v1 * f1 + v2 * f2) / (f1 + f2)
+        # rounding must not move the merged centre outside the pair it replaces
+        h.bins[i] = min(max(centre, v1), v2), f1 + f2
 
         if h.diffs is not None:
             h.diffs.pop(i)
@@ -229,13 +231,14 @@ def _trim(h: Distogram) -> Distogram:  # pragma: no cover
 def _trim_in_place(
     distogram: Distogram, new_value: float, new_count: int, bin_index: int
 ) -> Distogram:
-    current_value, current_frequency = distogram.bins[bin_index]
-    current_value = _caster(current_value)
-    distogram.bins[bin_index] = (
-        (current_value * current_frequency + new_value * new_count)
-        / (current_frequency + new_count),
-        current_frequency + new_count,
+    stored_value, current_frequency = distogram.bins[bin_index]
+    current_value = _caster(stored_value)
+    centre = (current_value * current_frequency + new_value * new_count) / (
+        current_frequency + new_count
     )
+    # rounding must not move the merged centre outside the bin and the new value it replaces
+    low, high = min(stored_value, new_value), max(stored_value, new_value)
+    distogram.bins[bin_index] = (min(max(centre, low), high), current_frequency + new_count)
     _update_diffs(distogram, bin_index)
     return distogram
 
